@@ -89,3 +89,17 @@ func (u *U[K]) Phase() []int {
 	}
 	return p
 }
+
+// AnyAlike, StringAlike, FloatAlike: DIFFERENT keys that look alike (the same number in different
+// dynamic types, a trailing NUL, the smallest positive float next to zero).
+func AnyAlike() *U[any] {
+	return &U[any]{Name: "any(int 3 / int64 3 / \"3\")", Keys: [][]any{{int(3)}, {int64(3)}, {"3"}}}
+}
+
+func StringAlike() *U[string] {
+	return &U[string]{Name: "string(a / a+NUL / empty)", Keys: [][]string{{"a", string([]byte("a"))}, {"a\x00"}, {""}}}
+}
+
+func FloatAlike() *U[float64] {
+	return &U[float64]{Name: "float64(0 / smallest positive / -smallest)", Keys: [][]float64{{0, nz}, {math.SmallestNonzeroFloat64}, {-math.SmallestNonzeroFloat64}}}
+}
